@@ -148,7 +148,7 @@ impl Arena {
 //@@end
 
 //@@fn file=sync.rs scope="impl Allocator for Arena {" name=increase_discarded rename=increase_discarded__ro xlate=sync st=mut props=C09
-//@subst /rt_panic\(\)/ => rt_panic_documented()
+//@subst? /rt_panic\(\)/ => rt_panic_documented()
 //@contract @increase_discarded__ro
 //@@end
 
@@ -392,6 +392,7 @@ impl Arena {
       let ghost n = l[k];
       proof {
         lemma_first_idx_props_from(l, size, true, 0);
+        assert(chk(true, size, l[k].1));
         lemma_dec_enc(size_of_cell(l, k - 1), next_of(l, k - 1));
         lemma_dec_enc(size_of_cell(l, k), next_of(l, k));
         assert(node_ok(self.av(), s0, n));
@@ -691,7 +692,7 @@ impl Arena {
 //@@end
 
 //@@fn file=sync.rs scope="impl Allocator for Arena {" name=set_minimum_segment_size rename=set_minimum_segment_size__ro xlate=sync st=mut props=C09
-//@subst /rt_panic\(\)/ => rt_panic_documented()
+//@subst? /rt_panic\(\)/ => rt_panic_documented()
 //@contract @set_minimum_segment_size__ro
 //@@end
 
